@@ -12,6 +12,7 @@ import Verif.Driver.MetricCodec
 import Verif.Driver.SyntaxCodec
 import Verif.Model.Unparse
 import Verif.Model.Layout
+import Verif.Model.HeapMerge
 import Verif.Gen.Offload
 import Verif.Gen.Prec
 import Verif.Gen.Palette
@@ -121,6 +122,10 @@ def handle (req : Sexp) : Sexp :=
       | [t, s, j] => ⟨t.toNat, s.toNat, j.toNat⟩
       | _ => ⟨0, 0, 0⟩
     if Merge.isRun srcs' out' then sym "ok" else .list [sym "bad"]
+  | some "heapmerge", [srcs] =>
+    let srcs' : List (List Merge.Rec) := (srcs.items.zipIdx).map fun (s, i) =>
+      (s.items.zipIdx).map fun (t, j) => ⟨t.toNat, i, j⟩
+    .list ((HeapMerge.merge srcs').map fun r => .list [ofNat r.ts, ofNat r.src, ofNat r.idx])
   | some "resources", [q] =>
     let r := Resources.eval (decodeQ q) Resources.init
     let cls := match r.1 with
